@@ -26,12 +26,37 @@
        (T16c -- polyline_len(simplified Catmull) + optimized_len =
        polyline_len(unsimplified), optimized_len >= 0 -- is proved over the
        reals, on the loop shared with the model.)
+     - T16b-IEEE [IEEE, last section of this file]: under explicit magnitude
+       hypotheses (the four coordinates finite with |c| <= 2^20, L and
+       lengths[k-1] finite with 0 <= L - lengths[k-1] <= 2^20, the segment's
+       exact length >= 2^-10) the end point calculate_length computes is
+       finite and differs per coordinate from the exact point of T16b (the
+       same formula over the reals on the same inputs) by at most
+       2^-24 (|path[k-1].c| + 9.05 (L - lengths[k-1])) + 2^-127; hence the
+       exact distance from path[k-1] to the computed end point is within
+       Ex + Ey of L - lengths[k-1], and the exact polyline length of the
+       adjusted path is within A + Ex + Ey of L, A being a bound on the
+       accumulated rounding error of the kept cumulative length.
+       For a zero seed, coordinates |c| <= 2^20, at most 2^50 vertices and
+       segments that are degenerate (equal end points) or at least 2^-10 long,
+       every cumulative length is the exact cumulative polyline length up to
+       the relative error alpha n = 3.01 * 2^-24 + 2 n * 2^-53, which
+       discharges A (C16_cumulative_lengths_ieee_bound,
+       C16_adjusted_length_ieee_bound_full; on calculate_length itself:
+       C16_calculate_length_ieee_bound).  The non-degeneracy hypothesis can be
+       read off the computed f32 length of the segment: >= 2^-9 suffices
+       (C16_ieee_hypotheses_from_f32_length).
    Still NOT proved (the property stays PARTIAL): monotonicity with a non-zero
    osu!-mode Catmull surplus (the surplus can be negative by rounding, "of the
-   order of 1e-5" in the property text), and the IEEE rounding error of the
-   adjusted end point (T16b is exact arithmetic).  These are monitored by the
-   oracle of harness/src/c16.rs (cut/extension geometry in f64, lengths start
-   at 0 / monotone within 1e-5 / finite, osu!-mode total unchanged).
+   order of 1e-5" in the property text), and with it the accumulated error of
+   the running sums for a non-zero seed; the IEEE bounds outside their
+   magnitude hypotheses (coordinates beyond 2^20, non-degenerate segments
+   shorter than 2^-10: see C16_underflow_witness for what happens at the far
+   end).  These are monitored by the oracle of harness/src/c16.rs
+   (cut/extension geometry in f64, lengths start at 0 / monotone within 1e-5 /
+   finite, osu!-mode total unchanged); its end-point tolerance
+   1e-3 + 4e-6 * magnitude (4e-6 = 67 * 2^-24) is wider than the proved bound
+   (at most 10.05 * 2^-24 * magnitude per coordinate).
 
    The distance is the requested length (main statement, after the repair of
    D9): calculate_length compares the requested length with the calculated one
@@ -567,3 +592,261 @@ Theorem C16_exact_cut_example :
   adjust_R (3, 4)%R (8, 16)%R 9%R 5%R = (3 + 5 * (4 / 13), 4 + 12 * (4 / 13))%R.
 Proof. exact adjust_example. Qed.
 Print Assumptions C16_exact_cut_example.
+
+(* ================================================================== *)
+(* T16b-IEEE -- rounding error of the adjusted end point               *)
+(* ================================================================== *)
+From RM Require Import Proofs.AdjustIEEEBase Proofs.AdjustIEEE Proofs.AdjustIEEESum Proofs.AdjustIEEELen Proofs.AdjustIEEEEx.
+Open Scope Z_scope.
+
+(* the hypotheses and the bound, spelled out.  Coordinates finite with
+   |c| <= 2^20 (a decoded map: |c| <= 2^17 = 131072, plus head-room for the
+   curve arithmetic), L and lengths[k-1] finite with 0 <= L - lengths[k-1] <= 2^20,
+   the segment's exact Euclidean length at least 2^-10 (not degenerate).
+   E16 c t = 2^-24 (c + 9.05 t) + 2^-127. *)
+Theorem C16_ieee_hypotheses :
+  (forall x k, bnd32 x k <-> is_finite x = true /\ (Rabs (B2R x) <= Raux.bpow Zaux.radix2 k)%R) /\
+  (forall p, R2 p = (B2R (px p), B2R (py p))) /\
+  (forall pp pe e lp, adjust_hyps pp pe e lp <->
+     bnd32 (px pp) 20 /\ bnd32 (py pp) 20 /\ bnd32 (px pe) 20 /\ bnd32 (py pe) 20 /\
+     is_finite e = true /\ is_finite lp = true /\
+     (0 <= B2R e - B2R lp <= Raux.bpow Zaux.radix2 20)%R /\
+     (Raux.bpow Zaux.radix2 (-10) <= edist (R2 pp) (R2 pe))%R) /\
+  (forall c t, E16 c t = (/ 16777216 * (c + 9.05 * t) + Raux.bpow Zaux.radix2 (-127))%R).
+Proof. split; [|split; [|split]]; intros; reflexivity. Qed.
+Print Assumptions C16_ieee_hypotheses.
+
+(* T16b-IEEE.  The end point calculate_length computes (adjust_end: the
+   model's own expression, 13 correctly rounded binary32 / binary64
+   operations per coordinate) is finite and differs per coordinate from the
+   exact point adjust_R -- the same formula over the reals, on the same f32
+   vertices and f64 lengths, about which T16b above speaks -- by at most
+   2^-24 (|path[k-1].c| + 9.05 (L - lengths[k-1])) + 2^-127 *)
+Theorem C16_adjusted_end_ieee_bound :
+  forall (path : list Pos) (lens : list F64) k L pp pe lp,
+  nth_error path (Nat.pred k) = Some pp -> nth_error path k = Some pe -> nth_error lens (Nat.pred k) = Some lp ->
+  adjust_hyps pp pe L lp ->
+  exists q, adjust_end path lens k L = Some q /\
+    is_finite (px q) = true /\ is_finite (py q) = true /\
+    (Rabs (B2R (px q) - fst (adjust_R (R2 pp) (R2 pe) (B2R L) (B2R lp)))
+       <= E16 (Rabs (B2R (px pp))) (B2R L - B2R lp))%R /\
+    (Rabs (B2R (py q) - snd (adjust_R (R2 pp) (R2 pe) (B2R L) (B2R lp)))
+       <= E16 (Rabs (B2R (py pp))) (B2R L - B2R lp))%R.
+Proof. exact adjust_end_ieee_bound. Qed.
+Print Assumptions C16_adjusted_end_ieee_bound.
+
+(* the same on the expression itself *)
+Theorem C16_adjusted_end_expression_ieee_bound :
+  forall pp pe e lp, adjust_hyps pp pe e lp ->
+  let q := padd pp (pmul (pnormalize (psub pe pp)) (f32_of_f64 (D.sub e lp))) in
+  let q' := adjust_R (R2 pp) (R2 pe) (B2R e) (B2R lp) in
+  is_finite (px q) = true /\ is_finite (py q) = true /\
+  (Rabs (B2R (px q) - fst q') <= E16 (Rabs (B2R (px pp))) (B2R e - B2R lp))%R /\
+  (Rabs (B2R (py q) - snd q') <= E16 (Rabs (B2R (py pp))) (B2R e - B2R lp))%R.
+Proof. exact adjusted_end_ieee_bound. Qed.
+Print Assumptions C16_adjusted_end_expression_ieee_bound.
+
+(* under the magnitude hypotheses the bound is below 0.63 px per coordinate
+   (2^-24 * 10.05 * 2^20); for |c|, L - lp <= 2^17 it is below 0.08 px *)
+Theorem C16_ieee_bound_is_small :
+  forall c t, (0 <= c <= Raux.bpow Zaux.radix2 20)%R -> (0 <= t <= Raux.bpow Zaux.radix2 20)%R ->
+  (E16 c t <= 0.63)%R.
+Proof. exact E16_le. Qed.
+Print Assumptions C16_ieee_bound_is_small.
+
+(* the building block: the binary32 length of a vector whose components
+   stand for X, Y up to one rounding has relative error at most 3.01 * 2^-24 *)
+Theorem C16_f32_length_relative_error :
+  forall (dx dy : F32) (X Y : R),
+  is_finite dx = true -> is_finite dy = true ->
+  (Rabs (B2R dx) <= Raux.bpow Zaux.radix2 21)%R -> (Rabs (B2R dy) <= Raux.bpow Zaux.radix2 21)%R ->
+  rel (B2R dx) X u32 -> rel (B2R dy) Y u32 ->
+  (Raux.bpow Zaux.radix2 (-20) <= X * X + Y * Y <= Raux.bpow Zaux.radix2 44)%R ->
+  is_finite (Curve.plen (mkPos dx dy)) = true /\
+  (Rabs (B2R (Curve.plen (mkPos dx dy))) <= Raux.bpow Zaux.radix2 22)%R /\
+  rel (B2R (Curve.plen (mkPos dx dy))) (sqrt (X * X + Y * Y)) (3.01 * u32)%R.
+Proof. exact plen_rel. Qed.
+Print Assumptions C16_f32_length_relative_error.
+
+Theorem C16_rel_definition :
+  (forall c v e, rel c v e <-> exists d, (c = v * (1 + d) /\ Rabs d <= e)%R) /\ u32 = (/ 16777216)%R.
+Proof. split; [intros; reflexivity|reflexivity]. Qed.
+Print Assumptions C16_rel_definition.
+
+(* Corollary: the exact Euclidean distance from path[k-1] to the computed end
+   point is within Ex + Ey of L - lengths[k-1]; hence the exact polyline
+   length of the adjusted path (the sum of the exact distances between its
+   f32 vertices) is within A + Ex + Ey of L, where A bounds the accumulated
+   rounding error of the kept cumulative length lengths[k-1] against the
+   exact polyline length c of the kept vertices (a hypothesis here: the
+   running sums of Proofs/LengthBound are proved finite, their accumulated
+   error is not bounded in this development) *)
+Theorem C16_adjusted_length_ieee_bound :
+  forall (path : list Pos) (lens : list F64) k L pp pe lp c A,
+  (1 <= k < length path)%nat ->
+  nth_error path (Nat.pred k) = Some pp -> nth_error path k = Some pe -> nth_error lens (Nat.pred k) = Some lp ->
+  adjust_hyps pp pe L lp ->
+  nth_error (cumlen (map R2 path)) (Nat.pred k) = Some c -> (Rabs (c - B2R lp) <= A)%R ->
+  let Ex := E16 (Rabs (B2R (px pp))) (B2R L - B2R lp) in
+  let Ey := E16 (Rabs (B2R (py pp))) (B2R L - B2R lp) in
+  exists q, adjust_end path lens k L = Some q /\
+    (Rabs (edist (R2 pp) (R2 q) - (B2R L - B2R lp)) <= Ex + Ey)%R /\
+    (Rabs (poly_len (map R2 (firstn k path ++ [q])) - B2R L) <= A + Ex + Ey)%R.
+Proof. exact adjusted_length_ieee_bound. Qed.
+Print Assumptions C16_adjusted_length_ieee_bound.
+
+(* the hypotheses are met by the cut of C16_nonvacuous_cut -- (0,0) (3,4)
+   (8,16), natural lengths 0, 5, 18, L = 9, cut in the second segment ... *)
+Example C16_ieee_hypotheses_example :
+  map D.bits (natural ex_path D.zero) = map D.bits ex_lens /\
+  adjust_hyps ex_p1 ex_p2 (D.of_Z 9) (D.of_Z 5).
+Proof. split; [exact ex_lens_are_natural|exact ex_adjust_hyps]. Qed.
+Print Assumptions C16_ieee_hypotheses_example.
+
+(* ... where the theorems say: the computed end point is within 2.5e-6 px per
+   coordinate of the exact cut point (3 + 20/13, 4 + 48/13), and the exact
+   polyline length of the adjusted path is within 4.8e-6 of L = 9 *)
+Example C16_ieee_bound_example :
+  (exists q, adjust_end ex_path ex_lens 2 (D.of_Z 9) = Some q /\
+     is_finite (px q) = true /\ is_finite (py q) = true /\
+     (Rabs (B2R (px q) - (3 + 5 * (4 / 13))) <= 2.5 / 1000000)%R /\
+     (Rabs (B2R (py q) - (4 + 12 * (4 / 13))) <= 2.5 / 1000000)%R) /\
+  (exists q, adjust_end ex_path ex_lens 2 (D.of_Z 9) = Some q /\
+     (Rabs (poly_len (map R2 (firstn 2 ex_path ++ [q])) - 9) <= 4.8 / 1000000)%R).
+Proof. split; [exact ex_adjust_bound|exact ex_adjusted_length]. Qed.
+Print Assumptions C16_ieee_bound_example.
+
+(* the computed end point, as bit patterns: (4.5384617, 7.692308) *)
+Example C16_ieee_end_point_dump :
+  match adjust_end ex_path ex_lens 2 (D.of_Z 9) with Some q => dump_pos q | None => [] end
+  = [S.bits (S.of_decimal false 45384617 (-7)); S.bits (S.of_decimal false 7692308 (-6))].
+Proof. exact ex_adjust_dump. Qed.
+
+(* ================================================================== *)
+(* the accumulated rounding error of the cumulative lengths (IEEE)     *)
+(* ================================================================== *)
+
+(* seg_ok a b: the two end points are numerically equal (the computed length
+   is then exactly 0) or at least 2^-10 apart; segs_ok: every segment;
+   alpha n = 3.01 * 2^-24 + 2 n * 2^-53;  lens_ok n xs cs: element by element,
+   x finite and x = c (1 + d), |d| <= alpha n *)
+Theorem C16_accumulated_error_definitions :
+  (forall a b, seg_ok a b <-> R2 a = R2 b \/ (Raux.bpow Zaux.radix2 (-10) <= edist (R2 a) (R2 b))%R) /\
+  (forall a b t, segs_ok (a :: b :: t) <-> seg_ok a b /\ segs_ok (b :: t)) /\
+  (forall n, alpha n = (3.01 * u32 + 2 * INR n * u64)%R) /\ u64 = (/ 9007199254740992)%R /\
+  (forall n xs cs, lens_ok n xs cs <->
+     Forall2 (fun x c => is_finite x = true /\ rel (B2R x) c (alpha n)) xs cs).
+Proof. split; [|split; [|split; [|split]]]; intros; reflexivity. Qed.
+Print Assumptions C16_accumulated_error_definitions.
+
+(* one segment: the widened binary32 length is the exact length up to 3.01 * 2^-24 *)
+Theorem C16_segment_length_ieee_bound :
+  forall a b, coord_le a 20 -> coord_le b 20 -> seg_ok a b ->
+  is_finite (f64_of_f32 (Curve.plen (psub b a))) = true /\
+  rel (B2R (f64_of_f32 (Curve.plen (psub b a)))) (edist (R2 a) (R2 b)) (3.01 * u32)%R.
+Proof. exact seg_rel. Qed.
+Print Assumptions C16_segment_length_ieee_bound.
+
+(* every cumulative length calculate_length computes (zero seed) against the
+   exact cumulative polyline length of the same f32 vertices: relative error
+   at most alpha n, n the number of vertices (at most 2^50), for coordinates
+   |c| <= 2^20 and segments that are degenerate or at least 2^-10 long *)
+Theorem C16_cumulative_lengths_ieee_bound :
+  forall path : list Pos,
+  Forall (fun p => coord_le p 20) path -> segs_ok path -> (length path <= 2 ^ 50)%nat ->
+  (poly_len (map R2 path) <= Raux.bpow Zaux.radix2 1000)%R ->
+  lens_ok (length path) (natural path D.zero) (cumlen (map R2 path)).
+Proof. exact natural_lengths_error. Qed.
+Print Assumptions C16_cumulative_lengths_ieee_bound.
+
+(* the length corollary with the hypothesis A discharged: the exact polyline
+   length of the adjusted path is within alpha n * c + Ex + Ey of L, c the
+   exact polyline length of the kept vertices *)
+Theorem C16_adjusted_length_ieee_bound_full :
+  forall (path : list Pos) k L pp pe lp c,
+  Forall (fun p => coord_le p 20) path -> segs_ok path -> (length path <= 2 ^ 50)%nat ->
+  (poly_len (map R2 path) <= Raux.bpow Zaux.radix2 1000)%R ->
+  (1 <= k < length path)%nat ->
+  nth_error path (Nat.pred k) = Some pp -> nth_error path k = Some pe ->
+  nth_error (natural path D.zero) (Nat.pred k) = Some lp ->
+  nth_error (cumlen (map R2 path)) (Nat.pred k) = Some c ->
+  is_finite L = true -> (0 <= B2R L - B2R lp <= Raux.bpow Zaux.radix2 20)%R ->
+  (Raux.bpow Zaux.radix2 (-10) <= edist (R2 pp) (R2 pe))%R ->
+  let Ex := E16 (Rabs (B2R (px pp))) (B2R L - B2R lp) in
+  let Ey := E16 (Rabs (B2R (py pp))) (B2R L - B2R lp) in
+  exists q, adjust_end path (natural path D.zero) k L = Some q /\
+    (Rabs (c - B2R lp) <= alpha (length path) * c)%R /\
+    (Rabs (poly_len (map R2 (firstn k path ++ [q])) - B2R L) <= alpha (length path) * c + Ex + Ey)%R.
+Proof. exact adjusted_length_ieee_bound_full. Qed.
+Print Assumptions C16_adjusted_length_ieee_bound_full.
+
+(* the hypotheses hold for (0,0) (3,4) (8,16); there the exact polyline length
+   of the path cut at L = 9 is within 5.7e-6 of 9 *)
+Example C16_accumulated_error_example :
+  (Forall (fun p => coord_le p 20) ex_path /\ segs_ok ex_path /\ (length ex_path <= 2 ^ 50)%nat /\
+   (poly_len (map R2 ex_path) <= Raux.bpow Zaux.radix2 1000)%R) /\
+  (exists q, adjust_end ex_path (natural ex_path D.zero) 2 (D.of_Z 9) = Some q /\
+     (Rabs (poly_len (map R2 (firstn 2 ex_path ++ [q])) - 9) <= 5.7 / 1000000)%R).
+Proof. split; [exact ex_path_hyps|exact ex_adjusted_length_full]. Qed.
+Print Assumptions C16_accumulated_error_example.
+
+(* on calculate_length itself (adjusting branch, zero seed): the new path is
+   the first k vertices plus the end point q; the kept length lp = lengths[k-1]
+   is finite, below L and within alpha n * c of the exact polyline length c of
+   the kept vertices; and when the segment the cut falls in is at least 2^-10
+   long and L - lp <= 2^20, q is finite, within E16 of the exact point, and the
+   exact polyline length of the new path is within alpha n * c + Ex + Ey of L *)
+Theorem C16_calculate_length_ieee_bound :
+  forall (path : list Pos) (L : F64) path' lens,
+  D.lt D.zero L = true ->
+  keeps_natural (natural_len path D.zero) L = false ->
+  (last_two_equal path && D.gt L (natural_len path D.zero))%bool = false ->
+  (2 <= length path)%nat ->
+  calculate_length path (Some L) D.zero = Done (path', lens) ->
+  Forall (fun p => coord_le p 20) path -> segs_ok path -> (length path <= 2 ^ 50)%nat ->
+  (poly_len (map R2 path) <= Raux.bpow Zaux.radix2 1000)%R -> is_finite L = true ->
+  exists k pp pe lp c q,
+    (1 <= k < length path)%nat /\
+    nth_error path (Nat.pred k) = Some pp /\ nth_error path k = Some pe /\
+    nth_error (natural path D.zero) (Nat.pred k) = Some lp /\
+    nth_error (cumlen (map R2 path)) (Nat.pred k) = Some c /\
+    path' = firstn k path ++ [q] /\ lens = firstn k (natural path D.zero) ++ [L] /\
+    is_finite lp = true /\ (B2R lp < B2R L)%R /\ (Rabs (c - B2R lp) <= alpha (length path) * c)%R /\
+    ((Raux.bpow Zaux.radix2 (-10) <= edist (R2 pp) (R2 pe))%R -> (B2R L - B2R lp <= Raux.bpow Zaux.radix2 20)%R ->
+     let Ex := E16 (Rabs (B2R (px pp))) (B2R L - B2R lp) in
+     let Ey := E16 (Rabs (B2R (py pp))) (B2R L - B2R lp) in
+     is_finite (px q) = true /\ is_finite (py q) = true /\
+     (Rabs (B2R (px q) - fst (adjust_R (R2 pp) (R2 pe) (B2R L) (B2R lp))) <= Ex)%R /\
+     (Rabs (B2R (py q) - snd (adjust_R (R2 pp) (R2 pe) (B2R L) (B2R lp))) <= Ey)%R /\
+     (Rabs (poly_len (map R2 path') - B2R L) <= alpha (length path) * c + Ex + Ey)%R).
+Proof. exact calculate_length_ieee_bound. Qed.
+Print Assumptions C16_calculate_length_ieee_bound.
+
+Example C16_calculate_length_ieee_example :
+  D.lt D.zero (D.of_Z 9) = true /\
+  keeps_natural (natural_len ex_path D.zero) (D.of_Z 9) = false /\
+  (last_two_equal ex_path && D.gt (D.of_Z 9) (natural_len ex_path D.zero))%bool = false /\
+  (2 <= length ex_path)%nat /\
+  (match calculate_length ex_path (Some (D.of_Z 9)) D.zero with Done (p, l) => (length p, map D.bits l) | _ => (O, []) end
+   = (3%nat, map D.bits [D.of_Z 0; D.of_Z 5; D.of_Z 9])) /\
+  is_finite (D.of_Z 9) = true.
+Proof. exact ex_calculate_length_hyps. Qed.
+
+(* the non-degeneracy hypothesis stated on the COMPUTED f32 length of the
+   segment: (path[k] - path[k-1]).length() >= 2^-9 implies an exact length
+   >= 2^-10, hence adjust_hyps (an exact length below 2^-10 gives a computed
+   length below 2^-9, underflow of the squares to zero included) *)
+Theorem C16_ieee_hypotheses_from_f32_length :
+  forall (pp pe : Pos) (e lp : F64),
+  coord_le pp 20 -> coord_le pe 20 -> is_finite e = true -> is_finite lp = true ->
+  (0 <= B2R e - B2R lp <= Raux.bpow Zaux.radix2 20)%R ->
+  (Raux.bpow Zaux.radix2 (-9) <= B2R (Curve.plen (psub pe pp)))%R ->
+  adjust_hyps pp pe e lp.
+Proof. exact adjust_hyps_of_f32_length. Qed.
+Print Assumptions C16_ieee_hypotheses_from_f32_length.
+
+Example C16_ieee_hypotheses_from_f32_length_example :
+  (Raux.bpow Zaux.radix2 (-9) <= B2R (Curve.plen (psub ex_p2 ex_p1)))%R /\
+  adjust_hyps ex_p1 ex_p2 (D.of_Z 9) (D.of_Z 5).
+Proof. split; [exact ex_f32_length|exact ex_adjust_hyps_from_f32_length]. Qed.
+Print Assumptions C16_ieee_hypotheses_from_f32_length_example.
